@@ -323,6 +323,8 @@ fn save_v3_with_compression<P: AsRef<Path>>(
         file.write_all(&router_bytes)?;
     }
 
+    #[cfg(neumann_verif)]
+    crate::verif_hook::point("snapshot.before_rename");
     std::fs::rename(&temp_path, path)?;
 
     Ok(())
